@@ -147,6 +147,15 @@ def run(ctx):
         so = single_opts(j + 1)
         traces.append(ring.run_single(N, kind, ops, use_sampler=(j // 2) % 3, seed=ctx.seed + j, opts=so))
         ctx.case(("ring-long", N, kind, (j // 2) % 3, so["act_dim"], so["dtype"], so["obs_dtype"], tuple(ops)))
+    # many small batches from a well-filled buffer (batch <= len / 8): "without duplicates in one batch" must not depend on
+    # the ratio of batch size to fill level (seed C09-f: a direct-draw path for small batches whose refill is unchecked)
+    for j, (N, B, reps) in enumerate([(64, 8, 150), (64, 4, 100), (32, 4, 100)] if quick else
+                                     [(64, 8, 400), (64, 4, 300), (32, 4, 300), (256, 32, 60), (128, 16, 150), (48, 6, 300)]):
+        for mode in (0, 1, 2):
+            ops = [("add", N // 4)] * 3 + [("sample", B)] * (reps // 3) + [("add", N // 4 + 1)] + [("sample", B)] * (reps - reps // 3)
+            so = dict(single_opts(j), handed_max=2)
+            traces.append(ring.run_single(N, "vector", ops, use_sampler=mode, seed=ctx.seed + 7 * j + mode, opts=so))
+            ctx.case(("ring-dense-sampling", N, B, reps, mode))
     ctx.validate("Ring_Trace", RING_TRACE_CFG, traces, sig=_sig("ring"), what=_what("ReplayBuffer"), chunk=300)
 
     # ---- multi-agent buffer: exhaustive small op sequences + random long ones
